@@ -10,3 +10,4 @@ def run(ctx, rep):
     order.rule_colorder_table(mod, rep)
     from ..rules import more
     more.rule_preset_joined(mod, rep)
+    more.rule_snode_continue(mod, rep)
